@@ -1,5 +1,6 @@
 import Marwood.Text
 import Marwood.Num.Rep
+import Marwood.Datum
 /-!
 # Number text: model of `Number::parse`, `parse_rational`, `parse_with_exactness`, `Display for
 Number` and the radix printers (`marwood/src/number.rs`), and of the library routines they call
@@ -105,21 +106,29 @@ def bigDigitsVal (radix : Nat) : Nat → Text → Option Nat
       | some d => bigDigitsVal radix (acc * radix + d) cs
       | none => none
 
+/-- the optional `+` of `BigUint::from_str_radix` (`++5` keeps both) -/
+def stripPlus (s : Text) : Text :=
+  match s with
+  | '+' :: tail => (match tail with | '+' :: _ => s | _ => tail)
+  | _ => s
+
 /-- `BigUint::from_str_radix` -/
 def parseBigUint (radix : Nat) (s : Text) : Option Nat :=
-  let s := match s with
-    | '+' :: tail => (match tail with | '+' :: _ => s | _ => tail)
-    | _ => s
-  match s with
+  match stripPlus s with
   | [] => none
-  | c :: _ => if c = '_' then none else bigDigitsVal radix 0 s
+  | c :: cs => if c = '_' then none else bigDigitsVal radix 0 (c :: cs)
+
+/-- what `BigInt::from_str_radix` hands to `BigUint::from_str_radix` after a leading `-`
+    (`-+5` is handed over whole, and fails there) -/
+def afterMinus (tail : Text) : Text :=
+  match tail with
+  | '+' :: _ => '-' :: tail
+  | _ => tail
 
 /-- `BigInt::from_str_radix` -/
 def parseBigInt (radix : Nat) (s : Text) : Option Int :=
   match s with
-  | '-' :: tail =>
-    let s' := match tail with | '+' :: _ => s | _ => tail
-    (parseBigUint radix s').map fun v => -(v : Int)
+  | '-' :: tail => (parseBigUint radix (afterMinus tail)).map fun v => -(v : Int)
   | _ => (parseBigUint radix s).map fun v => (v : Int)
 
 /-! ## ratios -/
@@ -183,20 +192,21 @@ inductive Exactness | exact | inexact | unspecified
 deriving DecidableEq, Repr
 
 /-- the `Rational32` stage of `parse_rational`: `.err ()` = fall through to `BigRational`.
-    Spellings one of whose parts is `i32::MIN` skip this stage (repair of the `Ratio::new`
-    overflow); a text without `/` fails `Ratio::from_str_radix` in any case. -/
+    Spellings whose negative denominator would make `Ratio::new` negate `i32::MIN` skip this
+    stage (repair of the overflow). -/
 def parseRational32 (radix : Nat) (s : Text) : Res Unit (Int × Int) :=
   match splitSlash s with
   | none => .err ()
   | some (a, b) =>
-    if parseIntStd inI32 radix a = some i32Min ∨ parseIntStd inI32 radix b = some i32Min then .err ()
-    else
-      match parseIntStd inI32 radix a with
+    match parseIntStd inI32 radix a with
+    | none => .err ()
+    | some n =>
+      match parseIntStd inI32 radix b with
       | none => .err ()
-      | some n =>
-        match parseIntStd inI32 radix b with
-        | none => .err ()
-        | some d => if d = 0 then .err () else ratioNew32 n d
+      | some d =>
+        if d < 0 ∧ (n = i32Min ∨ d = i32Min) then .err ()
+        else if d = 0 then .err ()
+        else ratioNew32 n d
 
 /-- `Number::parse_rational`; `.err ()` = `None` -/
 def parseRational (fo : FloatOps) (radix : Nat) (s : Text) : Res Unit Num :=
@@ -304,5 +314,55 @@ def numberToString (fo : FloatOps) (radix : Nat) (n : Num) : Text :=
   else if radix = 8 then printNumberRadix fo 8 n
   else if radix = 2 then printNumberRadix fo 2 n
   else printNumber fo n
+
+/-! ## the procedures `number->string` and `string->number` (`vm/builtin/number.rs`) on argument
+values; errors by class -/
+
+inductive ProcErr
+  | invalidNumArgs
+  | invalidSyntax
+deriving DecidableEq, Repr
+
+def usizeMax : Int := 18446744073709551615
+
+/-- `pop_usize`: an exact non-negative integer that fits `usize` -/
+def popUsize : Datum → Option Nat
+  | .num (.fix n) => if 0 ≤ n then some n.toNat else none
+  | .num (.big n) => if 0 ≤ n ∧ n ≤ usizeMax then some n.toNat else none
+  | .num (.rat n d) => if d = 1 ∧ 0 ≤ n then some n.toNat else none
+  | _ => none
+
+/-- `number->string` -/
+def numberToStringProc (fo : FloatOps) (args : List Datum) : Res ProcErr Datum :=
+  let go (z : Datum) (radix : Nat) : Res ProcErr Datum :=
+    match z with
+    | .num n => .ok (.str (numberToString fo radix n))
+    | _ => .err .invalidSyntax
+  match args with
+  | [z] => go z 10
+  | [z, r] =>
+    (match popUsize r with
+      | some radix => go z radix
+      | none => .err .invalidSyntax)
+  | _ => .err .invalidNumArgs
+
+/-- `string->number` (after the repair that validates the radix); the radix is `usize as u32` -/
+def stringToNumberProc (fo : FloatOps) (args : List Datum) : Res ProcErr Datum :=
+  let go (s : Datum) (radix : Nat) : Res ProcErr Datum :=
+    match s with
+    | .str t =>
+      if radix < 2 ∨ 36 < radix then .err .invalidSyntax
+      else match parseWithExactness fo t .unspecified radix with
+        | .ok n => .ok (.num n)
+        | .err () => .ok (.bool false)
+        | .panic m => .panic m
+    | _ => .err .invalidSyntax
+  match args with
+  | [s] => go s 10
+  | [s, r] =>
+    (match popUsize r with
+      | some radix => go s (radix % 4294967296)
+      | none => .err .invalidSyntax)
+  | _ => .err .invalidNumArgs
 
 end Marwood
